@@ -24,6 +24,10 @@ def run(ck):
              ("@ds 0", 0, ""), ("@ds 1", 1, ""), ("@ds 3", 3, ""), ("@ds 3, 255", 3, ""), ("@ds 3, fwdv", 3, "@defn fwdv, 9"),
              ('@incbin "b5.bin"', 5, ""), ('@incbin "b0.bin"', 0, ""),
              ('@segment "ADDR"\n@db', 1, ""), ('@segment "ADDR"\n@dw', 2, ""), ('@segment "ADDR"\n@ds 3', 3, "")]
+        # relative branches: the base of the distance is the address after the instruction, which is $10000 itself
+        # for a branch in the last two bytes
+        for mn in {"z80": ("jr", "djnz", "jr nz,"), "sm83": ("jr", "jr c,"), "6502": ("bne", "bcc", "beq", "bvs")}[arch]:
+            k += [(" %s @here" % mn, 2, ""), (" %s endl" % mn, 2, ""), (" %s @here + 2" % mn, 2, ""), (" %s fwdv" % mn, 2, "@defn fwdv, endl - 1")]
         forms = asmk.census(arch)
         bylen = {}
         for f, b in forms:
@@ -58,6 +62,11 @@ def run(ck):
         pad = (a - start % a) % a
         for seg in ("", '@segment "ADDR"\n'):
             progs.append(("z80", "%s@org %d\n@align %d\nendl:\n" % (seg, start, a))); meta.append((start, pad))
+    # an origin outside 0..$FFFF is never accepted (negative values, values a whole address space up), whatever follows
+    for arch in asmk.ARCHES:
+        for v in ("0 - 1", "0 - 3", "0 - 65536", "0 - 65535", "$80000000", "$ffffffff", "65536", "65537", "70000", "$7fffffff", "$10000 + $ffff"):
+            for rest in ("endl:\n", " nop\nendl:\n", "@db 1\nendl:\n", "@ds 4\nendl:\n", "@dw @here\nendl:\n"):
+                progs.append((arch, "@org %s\n%s" % (v, rest))); meta.append((TOP + 1, 0))
     # random walks
     for _ in range(3000 if thorough else 300):
         arch = rng.choice(asmk.ARCHES)
